@@ -65,6 +65,10 @@ CHECKS = {
          "Machine-checked proof: names_exact (the error names exactly the offending variables), offender_rejected, no_offender_accepted, never_offending (lists, enumerations, non-built-in DataTypes), missing_datatype_rejected, only_variables_with_values. Tie: 26 value classes x 31 DataType names, 200 mixed frames (real validate_values_in_df vs model vs oracle), 20 real graphs with an injected mismatch (ValidationError naming it, no output file).",
          "Trusted: Lean kernel, list model of the pandas masks, driver, harness. A structure value declaring a built-in DataType is treated as the code treats it (assumption recorded).",
          "DESIGN.md section 3 C16"),
+ "C17": ("Lean 4 theorems about a hand model of transform_ints_to_enums / create_enum_definition_table / instantiate_enum_class + differential correspondence against /repo",
+         "Machine-checked proof: frame_row (rows that are not enum-typed variables with a value are unchanged), only_value_changes / table_pointwise (one output row per input row; id, class, name, DataType kept), enum_attached (same integer, the defined string, the enumeration's name), enum_unknown, idempotent_row, xml_same_as_int32; witness of finding D-C17a. Tie: 60 generated documents per quick run (0-3 enumeration types with EnumStrings / EnumValues / no definition; scalar, list and missing values): the Value column after real construction vs the model applied to the parsed tables, plus the property evaluated directly (values, other columns, second application, XML form).",
+         "Trusted: Lean kernel, list model of the pandas joins and of xmltodict on EnumValueType bodies, driver, harness, document builder. Graph-level idempotence is checked on the real code; proved at row level.",
+         "DESIGN.md section 3 C17"),
 }
 PENDING_REASON = "check not built yet in this session; planned as a Lean model + correspondence check (DESIGN.md section 3)"
 
